@@ -7,7 +7,7 @@ from checks import _ops
 
 PROPERTY = "C07"
 LEVEL = "translation_validation"
-CASE_TIMEOUT = {"quick": 420, "thorough": 1500}
+CASE_TIMEOUT = {"quick": 420, "thorough": 600}
 ENCODED = [
     "cirkit.symbolic.functional.conjugate",
     "cirkit.symbolic.operators.conjugate_embedding_layer/conjugate_categorical_layer/conjugate_gaussian_layer/"
@@ -83,6 +83,13 @@ def cases(tier, seed):
                 d = dict(c)
                 d["semiring"] = s
                 out.append(d)
+        for i_, c in enumerate(_ops.random_pipes(seed, 120, "conjugate")):
+            d = dict(c)
+            ss_ = ["sum-product", "lse-sum", "complex-lse-sum"]
+            d["semiring"] = ss_[i_ % len(ss_)]
+            if d.pop("no_complex", False) and d["semiring"] == "complex-lse-sum":
+                d["semiring"] = "sum-product"
+            out.append(d)
     return out
 
 
